@@ -232,8 +232,16 @@ func (s *Sim) PlayHand(plan SignalPlan) *Hand {
 	var ev *Event
 	for ev == nil && time.Now().Before(deadline) {
 		ev = s.WaitFor(50*time.Millisecond, func(ev *Event) bool {
+			if ev.Kind == "error" {
+				return true
+			}
 			return ev.Kind == "table" && ev.Table != nil && ev.Table.State.Status == pokertable.TableStateStatus_TableGameOpened && ev.Table.State.GameState == nil
 		})
+		if ev != nil && ev.Kind == "error" {
+			h.Outcome = "error"
+			s.Stall = "engine error: " + ev.Name
+			return h
+		}
 		if ev == nil {
 			for _, c := range s.SM.Calls()[smLo:] {
 				if (c.Op == "RotatePositions" || c.Op == "InitPositions") && c.Err != "" {
